@@ -298,9 +298,35 @@ func suiteC10(s *Suite, rng *Rng, tier string) {
 				}
 			}
 			// ---- Witness.Update with corrupted updates: state must be unchanged on rejection ----
+			// the witness may be older than the update, at its index (with the same or an older time stamp), or past it: an
+			// altered update is refused in every position, also where an authentic one would simply be ignored
+			type wpos struct {
+				name string
+				w    *revocation.Witness
+			}
+			var positions []wpos
 			if ln >= 1 && from >= 1 {
-				w := h.issue(from-1, bi(7919))
-				for _, kind := range []string{"honest", "event-E+2", "signed-data-corrupted"} {
+				positions = append(positions, wpos{"older", h.issue(from-1, bi(7919))})
+			}
+			if ln >= 1 {
+				positions = append(positions, wpos{"same-index", h.issue(to, bi(7919))})
+				older := *h.accs[to]
+				older.Time -= 5
+				if sa, err := older.Sign(kp.Sk); err == nil {
+					wo := h.issue(to, bi(7919))
+					wo.SignedAccumulator = sa
+					if _, err := sa.UnmarshalVerify(kp.Pk); err == nil {
+						positions = append(positions, wpos{"same-index-older-time", wo})
+					}
+				}
+				if to < last {
+					positions = append(positions, wpos{"past", h.issue(last, bi(7919))})
+				}
+			}
+			for _, pos := range positions {
+				w := pos.w
+				for _, kind0 := range []string{"honest", "event-E+2", "signed-data-corrupted", "last-event-index+1", "first-event-dropped"} {
+					kind := kind0
 					wc := *w
 					sa := *w.SignedAccumulator
 					wc.SignedAccumulator = &sa
@@ -310,8 +336,20 @@ func suiteC10(s *Suite, rng *Rng, tier string) {
 						u.Events[0].E.Add(u.Events[0].E, bi(2))
 					case "signed-data-corrupted":
 						u.SignedAccumulator.Data[3] ^= 1
+					case "last-event-index+1":
+						u.Events[len(u.Events)-1].Index++
+					case "first-event-dropped":
+						if len(u.Events) < 3 {
+							continue // with two events what remains is an authentic shorter window
+						}
+						// (a shorter window is authentic; make it inauthentic by dropping an event from the middle instead)
+						u.Events = append(u.Events[:len(u.Events)-2], u.Events[len(u.Events)-1])
+						kind = "second-to-last-event-dropped"
 					}
+					kind = pos.name + ":" + kind
+					honestKind := kind0 == "honest"
 					in := L{n, dumpWitness(&wc), dumpUpdate(u, kp)}
+					beforeW := S(dumpWitness(&wc))
 					beforeU, beforeIdx := new(gbig.Int).Set(wc.U), wc.SignedAccumulator.Accumulator.Index
 					res := 5
 					func() {
@@ -319,11 +357,11 @@ func suiteC10(s *Suite, rng *Rng, tier string) {
 						res = updResult(wc.Update(kp.Pk, u))
 					}()
 					s.Add(901, "witness-update:"+kind, smallLeft > 0, in, L{res, dumpWitness(&wc), dumpProductCache(u)})
-					if kind != "honest" && (res == 0 || wc.U.Cmp(beforeU) != 0 || wc.SignedAccumulator.Accumulator.Index != beforeIdx) {
-						s.Violate("C10:altered-update-applied-to-witness", "witness changed by an altered update: "+kind, L{kind})
+					if !honestKind && (res == 0 || wc.U.Cmp(beforeU) != 0 || wc.SignedAccumulator.Accumulator.Index != beforeIdx || S(dumpWitness(&wc)) != beforeW) {
+						s.Violate("C10:altered-update-applied-to-witness", fmt.Sprintf("an altered update was not refused (result %d) or changed the witness: %s", res, kind), L{kind})
 					}
-					if kind == "honest" && res != 0 {
-						s.Violate("C10:honest-update-rejected", "witness update with honest message failed", L{res})
+					if honestKind && res != 0 {
+						s.Violate("C10:honest-update-rejected", "witness update with honest message failed: "+kind, L{res})
 					}
 				}
 			}
